@@ -560,3 +560,76 @@ pub fn gen_activity(rng: &mut Rng) -> Option<(f32, f32)> {
         _ => Some((0.0, 1.0)),
     }
 }
+
+
+/// Adds packages that nobody requests (highest name ids), whose candidates have a few narrow
+/// requirements on existing packages, and names some of those candidates as soft requirements.
+/// This is the "soft requirement x unrequested package x conflict below it" corner.
+pub fn add_unrequested_soft_packages(rng: &mut Rng, w: &mut World, p: &mut ProblemSpec, k: usize) {
+    let existing: Vec<u32> = w
+        .packages
+        .iter()
+        .filter(|(_, pk)| !pk.candidates.is_empty())
+        .map(|(n, _)| *n)
+        .collect();
+    if existing.is_empty() {
+        return;
+    }
+    let mut next_name = w.packages.keys().max().map(|m| m + 1).unwrap_or(0);
+    let mut next_s = w.solvables.keys().max().map(|m| m + 1).unwrap_or(0);
+    let mut next_vs = w.version_sets.keys().max().map(|m| m + 1).unwrap_or(0);
+    for _ in 0..k {
+        let name = next_name;
+        next_name += 1 + rng.below(2) as u32;
+        let n_c = rng.range(1, 2);
+        let mut cands = Vec::new();
+        for _ in 0..n_c {
+            let s = next_s;
+            next_s += 1;
+            let n_req = rng.range(1, 3);
+            let mut requirements = Vec::new();
+            for _ in 0..n_req {
+                let target = *rng.pick(&existing);
+                let tc = w.packages[&target].candidates.clone();
+                let mut m: Vec<u32> = tc.iter().copied().filter(|_| rng.chance(1, 2)).collect();
+                if m.is_empty() {
+                    m.push(*rng.pick(&tc));
+                }
+                m.sort();
+                let vs = next_vs;
+                next_vs += 1;
+                w.version_sets.insert(vs, VersionSet { name: target, matches: m });
+                requirements.push(Req::Single(vs));
+            }
+            w.solvables.insert(
+                s,
+                Solvable {
+                    name,
+                    deps: Deps::Known {
+                        requirements,
+                        constrains: vec![],
+                    },
+                },
+            );
+            cands.push(s);
+        }
+        w.packages.insert(
+            name,
+            Package {
+                candidates: cands.clone(),
+                rank: cands.clone(),
+                favored: None,
+                locked: None,
+                excluded: vec![],
+                hint: Hint::None,
+                missing: false,
+            },
+        );
+        for c in cands {
+            if rng.chance(2, 3) {
+                let pos = rng.below(p.soft.len() + 1);
+                p.soft.insert(pos, c);
+            }
+        }
+    }
+}
